@@ -6,7 +6,7 @@ A design is generated once as an intermediate form and rendered twice:
     nets = blocks `reader @= writer`, if/else = mux).
 The generator knows which member drives each net because it creates the connections itself.
 """
-import importlib.util, itertools, os, sys
+import importlib.util, itertools, os, re, sys
 
 from . import leanio
 
@@ -237,10 +237,20 @@ class Design:
     for comp in order:
       cls = self.cls_name(comp)
       out += [f'class {cls}( Component ):', '  def construct( s ):']
+      lists_done = set()
       for s in self.sigs:
         if s.comp != comp or s.name in ('reset', 'clk'): continue
         ctor = {'in': 'InPort', 'out': 'OutPort', 'wire': 'Wire'}[s.kind]
-        out.append(f'    s.{s.name} = {ctor}( {s.stype.name if s.stype is not None else "Bits" + str(s.width)} )')
+        ty = s.stype.name if s.stype is not None else "Bits" + str(s.width)
+        m = re.match(r'(\w+)\[(\d+)\]$', s.name)
+        if m:
+          base = m.group(1)
+          if base in lists_done: continue
+          lists_done.add(base)
+          n = len([x for x in self.sigs if x.comp == comp and re.match(re.escape(base) + r'\[\d+\]$', x.name)])
+          out.append(f'    s.{base} = [ {ctor}( {ty} ) for _ in range({n}) ]')
+        else:
+          out.append(f'    s.{s.name} = {ctor}( {ty} )')
       if comp == '':
         for ch in self.comps['']['children']:
           out.append(f'    s.{ch} = {self.cls_name(ch)}()')
@@ -287,6 +297,9 @@ def generate(rng, max_blocks=8, with_children=True, with_regs=True, wide=False, 
   for nm in names('in', n_in): d.new_sig('', nm, W(), 'in', ST())
   for nm in names('out', rng.randint(1, 3)): d.new_sig('', nm, W(), 'out', ST())
   for nm in names('w', rng.randint(1, 4)): d.new_sig('', nm, W(), 'wire', ST())
+  if rng.random() < 0.4:      # a list of wires / out ports: s.wl = [Wire(..) for _ in range(k)]
+    lw, lst, kind = W(), ST(), rng.choice(['wire', 'wire', 'out'])
+    for i in range(rng.randint(2, 3)): d.new_sig('', f'{"wl" if kind == "wire" else "ol"}[{i}]', lw, kind, lst)
   children = []
   if with_children and rng.random() < 0.6:
     for c in range(rng.randint(1, 2)):
@@ -565,9 +578,7 @@ class RealSim:
     top = self.top
     vals = []
     for s in self.d.sigs:
-      obj = top
-      for part in s.path.split('.'): obj = getattr(obj, part)
-      vals.append(int(obj.to_bits()))
+      vals.append(int(resolve_path(top, s.path).to_bits()))
     return vals
 
   def set_inputs(self, ins):
@@ -579,11 +590,17 @@ class RealSim:
         v = cls.from_bits(Bits(sg.width, v))
       setattr_path(self.top, sg.path, v)
 
-def setattr_path(top, path, v):
-  parts = path.split('.')
+def resolve_path(top, path):
+  """follow 'c0.wl[2]' from top"""
   obj = top
-  for p in parts[:-1]: obj = getattr(obj, p)
-  sig = getattr(obj, parts[-1])
+  for part in path.split('.'):
+    m = re.match(r'(\w+)((?:\[\d+\])*)$', part)
+    obj = getattr(obj, m.group(1))
+    for i in re.findall(r'\[(\d+)\]', m.group(2)): obj = obj[int(i)]
+  return obj
+
+def setattr_path(top, path, v):
+  sig = resolve_path(top, path)
   sig @= v
 
 def gen_inputs(rng, d, ncycles):
